@@ -443,7 +443,7 @@ pub fn assess(b: &Built) -> Option<Assessment> {
             p.extend_from_slice(wits.map_get(4)?.span(&b.tx));
         }
         let langs = if redeemer_count > 0 { langs_used.clone() } else { vec![] };
-        p.extend(txlab::language_views(&langs));
+        p.extend(txlab::language_views(&langs, txlab::v2_model_at(era, b.slot)));
         Some(blake2b_256(&p))
     };
     let sdh = body.map_get(11).and_then(|n| n.as_bytes());
@@ -455,8 +455,11 @@ pub fn assess(b: &Built) -> Option<Assessment> {
             _ => true,
         },
     );
-    // every parameter set of params.rs carries the PlutusV1 cost model only
-    table("language-available", langs_used.iter().any(|l| *l != 0));
+    // every parameter set of params.rs carries the PlutusV1 cost model only; the Babbage
+    // validator takes the languages from the slot (PlutusV2 from mainnet epoch 366 on),
+    // which base B4 uses
+    let v2_available = era == Era::Babbage && b.slot >= params::V2_FROM_SLOT;
+    table("language-available", langs_used.iter().any(|l| !(*l == 0 || (*l == 1 && v2_available))));
 
     // ---- rules outside the table (C34..C37 and the extraneous-script rule)
     if fee < BigInt::from(params::MINFEE_A * view.ledger_size() + params::MINFEE_B) {
